@@ -546,3 +546,87 @@ Proof.
   cbv zeta. split; [reflexivity|]. split; [exact ex_reg_fresh|]. split; [ex_uniq|]. vm_compute. split; reflexivity.
 Qed.
 Print Assumptions C11_bulk_pools_nonvacuous.
+
+(* ------------------------------------------------------------------ any number of SRGs *)
+(* Independence at the sender: whatever events of other SRGs (or ignored events) are interleaved, SRG g's counter, backlog
+   and substream are those of g's own events — so C11_backlog_range / C11_sender_backlog_exact apply per SRG of a sender
+   that serves any number of SRGs. *)
+Theorem C11_sender_srg_independent :
+  forall g evs sn seq b,
+  g <> 0%N -> aget N.eqb g sn = Some (seq, b) -> (seq + N.of_nat (length (evs_of g evs)) < n64)%N ->
+  sent_of g (snd (sender_run sn evs)) = reqs_from g seq (evs_of g evs) /\
+  aget N.eqb g (fst (sender_run sn evs)) =
+    Some ((seq + N.of_nat (length (evs_of g evs)))%N, fold_left push (reqs_from g seq (evs_of g evs)) b).
+Proof. exact sender_run_srg. Qed.
+Print Assumptions C11_sender_srg_independent.
+
+(* /repo HEAD's receiver with any number of SRGs sharing the sender, the one send channel and the receiver: any sender
+   state (any SRG set, counters, backlogs), any history of events of configured SRGs, the merged stream delivered in
+   the order of the send channel with redelivery of a message only while it is its session's newest delivered one:
+   store and pools are exactly those of the live sessions of all SRGs. *)
+Theorem C11_converges_head_multi :
+  forall g0 sn fl evs d,
+  f_stale fl = true -> f_drop fl = false -> f_relall fl = false -> accepted sn evs ->
+  let reqs := snd (sender_run sn evs) in
+  delivery_latest reqs 0 d (length reqs) ->
+  rc_store (recv_run fl (mkrecv [] [] g0) d) = expected_store (live_run evs).
+Proof. exact converges_head_multi. Qed.
+Print Assumptions C11_converges_head_multi.
+
+Theorem C11_pools_exact_head_multi :
+  forall g0 sn fl evs d,
+  f_stale fl = true -> f_drop fl = false -> f_relall fl = false -> accepted sn evs ->
+  fresh g0 -> (forall i, (i <= length evs)%nat -> uniq g0 (live_run (firstn i evs))) ->
+  let reqs := snd (sender_run sn evs) in
+  delivery_latest reqs 0 d (length reqs) ->
+  forall x sid, lease_at (rc_reg (recv_run fl (mkrecv [] [] g0) d)) x = Some sid <->
+                In (x, sid) (expected_leases g0 (live_run evs)).
+Proof. exact pools_exact_head_multi. Qed.
+Print Assumptions C11_pools_exact_head_multi.
+
+Example C11_multi_srg_nonvacuous :
+  (* SRG 1 and SRG 2 interleaved; session 2 (SRG 2) takes over the address session 1 (SRG 1) gave up; duplicates *)
+  let s1 := ex_sess 1 (Some ex_a) 1 in
+  let s1' := ex_sess 1 None 0 in
+  let s2 := mksession KIPoE 2 2 2199023255554 100 7 1 (Some ex_a) 1 None 0 None 0 0 None None 0 3600 in
+  let sn := [(1%N, (0%N, new_ring 4)); (2%N, (7%N, new_ring 2))] in
+  let evs := [(s1, false); (s1', false); (s2, false)] in
+  let reqs := snd (sender_run sn evs) in
+  accepted sn evs /\ map (fun q => (q_srg q, q_seq q)) reqs = [(1, 1); (1, 2); (2, 8)]%N /\
+  (forall i, (i <= length evs)%nat -> uniq ex_reg (live_run (firstn i evs))) /\
+  delivery_latest reqs 0 (firstn 2 reqs ++ skipn 1 reqs ++ skipn 2 reqs) 3 /\
+  leases_of (rc_reg (recv_run head (mkrecv [] [] ex_reg) (firstn 2 reqs ++ skipn 1 reqs ++ skipn 2 reqs))) = [((4, 1, ex_a)%N, 2%N)].
+Proof.
+  cbv zeta. split.
+  - intros e [<-|[<-|[<-|[]]]]; split; vm_compute; discriminate.
+  - split; [vm_compute; reflexivity|]. split; [ex_uniq|]. split; [|vm_compute; reflexivity].
+    eapply dv_next; [vm_compute; reflexivity|]. eapply dv_next; [vm_compute; reflexivity|].
+    eapply (dv_dup _ 2 1); [lia|vm_compute; reflexivity|intros j q' Hj; lia|].
+    eapply dv_next; [vm_compute; reflexivity|].
+    eapply (dv_dup _ 3 2); [lia|vm_compute; reflexivity|intros j q' Hj; lia|]. apply dv_nil.
+Qed.
+Print Assumptions C11_multi_srg_nonvacuous.
+
+(* ------------------------------------------------------------------ free lists *)
+(* For every flag set, every registry whose free lists have no duplicates and contain nothing that is leased (every
+   registry built by the constructors: mk_pool_ok, mk_pd_ok) and every list of requests handed to the receiver: an
+   address or prefix index that is reserved on the standby is not on its pool's free list — Allocate after a fail-over
+   cannot hand it out.  (The check compares the free lists' contents of code and model.) *)
+Theorem C11_reserved_not_on_free_list :
+  forall fl g0 d l st f p k sid,
+  reg_ok g0 -> lease_at (rc_reg (recv_run fl (mkrecv l st g0) d)) (f, p, k) = Some sid ->
+  ~ In k (free_at (rc_reg (recv_run fl (mkrecv l st g0) d)) f p).
+Proof. exact reserved_not_free. Qed.
+Print Assumptions C11_reserved_not_on_free_list.
+
+Example C11_free_list_nonvacuous :
+  reg_ok ex_reg /\
+  (let g := rc_reg (recv_run head (mkrecv [] [] ex_reg) [ex_q 1 false (ex_sess 1 (Some ex_a) 1)]) in
+   lease_at g (4, 1, ex_a)%N = Some 1%N /\ In ex_b (free_at g 4 1) /\ length (free_at g 4 1) = 10%nat).
+Proof.
+  split.
+  - unfold reg_ok, ex_reg. cbn [g_v4 g_na g_pd]. split; [|split]; intros np H;
+      repeat (destruct H as [<-|H]; [first [apply mk_pool_ok|apply mk_pd_ok]|]); destruct H.
+  - vm_compute. split; [reflexivity|]. split; [|reflexivity]. auto 20.
+Qed.
+Print Assumptions C11_free_list_nonvacuous.
